@@ -259,6 +259,9 @@ type Tmpl struct {
 	Exts      []Ext
 	// Validity encodings: nil = RFC 5280 rule.
 	NotBeforeDER, NotAfterDER []byte
+	// SerialContent != nil: the INTEGER's content octets verbatim (e.g. with superfluous leading 00 octets:
+	// not DER, accepted only by lenient decoders); Serial is then ignored.
+	SerialContent []byte
 }
 
 // TBS builds the TBSCertificate signed by a key with the given algorithm.
@@ -270,9 +273,13 @@ func (t *Tmpl) TBS(sigAlg []byte) []byte {
 	if na == nil {
 		na = der.Time(t.NotAfter)
 	}
+	serial := der.IntMag(t.Serial)
+	if t.SerialContent != nil {
+		serial = der.TLV(0x02, t.SerialContent)
+	}
 	parts := [][]byte{
 		der.Explicit(0, der.Int(2)),
-		der.IntMag(t.Serial),
+		serial,
 		sigAlg,
 		t.Issuer.DER(),
 		der.Seq(nb, na),
